@@ -120,6 +120,9 @@ enum cc_stat cc_rbuf_dequeue(CC_Rbuf *rbuf, uint64_t *out)
 
 uint64_t cc_rbuf_peek(CC_Rbuf *rbuf, int index)
 {
+    if (index < 0 || (size_t) index >= rbuf->capacity)
+        return 0;
+
     return rbuf->buf[index];
 }
 
